@@ -156,6 +156,9 @@ func (r *Reporter) getFileLines(filename string) []string {
 
 	var lines []string
 	scanner := bufio.NewScanner(strings.NewReader(string(content)))
+	// The default token limit (64 KB) makes the scanner stop at the first longer line,
+	// which silently drops that line and everything after it (generated code has such lines)
+	scanner.Buffer(make([]byte, 0, 64*1024), len(content)+1)
 	for scanner.Scan() {
 		lines = append(lines, scanner.Text())
 	}
